@@ -116,6 +116,23 @@ def s1(ctx, rep):
                     "global generator), so two objects created with random_seed=0 behave differently")
     if ns < 3:
         raise AnchorError(f"C11-S1: only {ns} optional integer seed parameters found")
+    # the seed a searcher creates its generator from is never None (RandomState(None) seeds from OS entropy): what
+    # extract_random_seed returns is a generated seed, the given seed, or the fixed default - a raw `kwargs.get(...)` result
+    # (None when the caller forwards random_seed=None explicitly) is replaced under `is None`
+    from .common import maybe_none_reaches
+    ex = P.func("syne_tune.optimizer.schedulers.searchers.searcher_base.extract_random_seed")
+    cex = cfg_of(ex)
+    rets_ = [n for n in cex.nodes if n.kind == "stmt" and isinstance(n.ast, ast.Return) and isinstance(n.ast.value, ast.Tuple) and n.ast.value.elts
+             and isinstance(n.ast.value.elts[0], ast.Name)]
+    if len(rets_) != 1:
+        raise AnchorError("extract_random_seed: `return <seed variable>, <kwargs>` not found")
+    sv_ = rets_[0].ast.value.elts[0].id
+    leaks = maybe_none_reaches(ctx, ex, sv_, {rets_[0].id})
+    rep.put(not leaks, "S1", "nullness", "extract_random_seed never returns None as the seed", ex, leaks[0][0] if leaks else None, "",
+            f"`{U(leaks[0][0])[:70] if leaks and leaks[0][0] is not None else ''}` can be None when it is returned (a key that is present with value None "
+            "is not covered by a dict.get default): RandomState(None) is seeded from OS entropy, so searchers created with random_seed=None "
+            "forwarded explicitly differ from run to run although the scheduler was given a seed",
+            witness=cex.describe_path(leaks[0][1]) if leaks else None)
     # the accepted fallback: generate_random_seed() without generator only when no seed was given
     gs = P.func("syne_tune.optimizer.schedulers.random_seeds.generate_random_seed")
     dflt = gs.param_default("random_state")
